@@ -107,6 +107,41 @@ struct Cx<'tcx> {
     adts: BTreeMap<String, AdtDef>,
 }
 
+thread_local! {
+    static QUIET: std::cell::Cell<bool> = std::cell::Cell::new(false);
+}
+
+/// `Ty::kind()` hits `todo!()` for a few type kinds in this nightly (seen in serde-derived code):
+/// treat those as opaque instead of aborting the extraction.
+fn kind_of(t: &Ty) -> Option<TyKind> {
+    QUIET.with(|q| q.set(true));
+    let r = std::panic::catch_unwind(std::panic::AssertUnwindSafe(|| t.kind())).ok();
+    QUIET.with(|q| q.set(false));
+    r
+}
+
+/// does the type mention an unnormalised projection/opaque alias (Instance::resolve may ICE on those)?
+fn has_alias(t: &Ty, depth: usize) -> bool {
+    if depth > 5 {
+        return false;
+    }
+    match kind_of(t) {
+        None => true,
+        Some(TyKind::Alias(..)) => true,
+        Some(TyKind::RigidTy(r)) => match r {
+            RigidTy::Adt(_, args) => args.0.iter().any(|a| match a {
+                GenericArgKind::Type(t2) => has_alias(t2, depth + 1),
+                _ => false,
+            }),
+            RigidTy::Ref(_, t2, _) | RigidTy::RawPtr(t2, _) | RigidTy::Slice(t2) => has_alias(&t2, depth + 1),
+            RigidTy::Array(t2, _) => has_alias(&t2, depth + 1),
+            RigidTy::Tuple(ts) => ts.iter().any(|t2| has_alias(t2, depth + 1)),
+            _ => false,
+        },
+        _ => false,
+    }
+}
+
 fn ty_str(t: &Ty) -> String {
     format!("{}", t)
 }
@@ -116,7 +151,8 @@ impl<'tcx> Cx<'tcx> {
         if depth > 6 {
             return;
         }
-        match t.kind() {
+        let Some(k) = kind_of(t) else { return };
+        match k {
             TyKind::RigidTy(r) => match r {
                 RigidTy::Adt(def, args) => {
                     if def.krate().is_local {
@@ -178,7 +214,7 @@ impl<'tcx> Cx<'tcx> {
                     // field name, if the base is an ADT / closure / tuple
                     let mut fname = String::new();
                     let mut owner = String::new();
-                    if let TyKind::RigidTy(RigidTy::Adt(def, _)) = cur_ty.kind() {
+                    if let Some(TyKind::RigidTy(RigidTy::Adt(def, _))) = kind_of(&cur_ty) {
                         owner = def.name();
                         let vidx = cur_variant.unwrap_or(0);
                         let vs = def.variants();
@@ -208,7 +244,7 @@ impl<'tcx> Cx<'tcx> {
                 ProjectionElem::Downcast(v) => {
                     let vi = rustc_public_bridge::IndexedVal::to_index(v);
                     let mut vname = String::new();
-                    if let TyKind::RigidTy(RigidTy::Adt(def, _)) = cur_ty.kind() {
+                    if let Some(TyKind::RigidTy(RigidTy::Adt(def, _))) = kind_of(&cur_ty) {
                         if let Some(vd) = def.variants().get(vi) {
                             vname = vd.name();
                         }
@@ -234,7 +270,7 @@ impl<'tcx> Cx<'tcx> {
         let ty = c.ty();
         let mut v: Vec<(&'static str, J)> = vec![("k", s("const")), ("ty", s(ty_str(&ty)))];
         // function item constants
-        if let TyKind::RigidTy(RigidTy::FnDef(def, args)) = ty.kind() {
+        if let Some(TyKind::RigidTy(RigidTy::FnDef(def, args))) = kind_of(&ty) {
             v.push(("fn", s(def.name())));
             let ga: Vec<J> = args
                 .0
@@ -247,19 +283,19 @@ impl<'tcx> Cx<'tcx> {
                 .collect();
             v.push(("fnargs", J::Arr(ga)));
         }
-        if let TyKind::RigidTy(RigidTy::Closure(def, _)) = ty.kind() {
+        if let Some(TyKind::RigidTy(RigidTy::Closure(def, _))) = kind_of(&ty) {
             v.push(("closure", s(def.name())));
         }
         match c.const_.kind() {
             ConstantKind::Allocated(a) => {
                 let prim = matches!(
-                    ty.kind(),
-                    TyKind::RigidTy(
+                    kind_of(&ty),
+                    Some(TyKind::RigidTy(
                         RigidTy::Bool | RigidTy::Char | RigidTy::Int(_) | RigidTy::Uint(_)
-                    )
+                    ))
                 );
                 if prim {
-                    let signed = matches!(ty.kind(), TyKind::RigidTy(RigidTy::Int(_)));
+                    let signed = matches!(kind_of(&ty), Some(TyKind::RigidTy(RigidTy::Int(_))));
                     if signed {
                         if let Ok(x) = a.read_int() {
                             v.push(("val", J::Int(x)));
@@ -275,9 +311,9 @@ impl<'tcx> Cx<'tcx> {
                     }
                 } else if a.provenance.ptrs.len() == 1 {
                     // &str / &[u8] constants: pointer + length
-                    let is_str = match ty.kind() {
-                        TyKind::RigidTy(RigidTy::Ref(_, inner, _)) => {
-                            matches!(inner.kind(), TyKind::RigidTy(RigidTy::Str))
+                    let is_str = match kind_of(&ty) {
+                        Some(TyKind::RigidTy(RigidTy::Ref(_, inner, _))) => {
+                            matches!(kind_of(&inner), Some(TyKind::RigidTy(RigidTy::Str)))
                         }
                         _ => false,
                     };
@@ -315,7 +351,7 @@ impl<'tcx> Cx<'tcx> {
                             }
                         }
                         if let Some(sc) = cv.try_to_scalar_int() {
-                            let signed = matches!(ty.kind(), TyKind::RigidTy(RigidTy::Int(_)));
+                            let signed = matches!(kind_of(&ty), Some(TyKind::RigidTy(RigidTy::Int(_))));
                             if signed {
                                 v.push(("val", J::Int(sc.to_int(sc.size()))));
                             } else {
@@ -511,7 +547,7 @@ impl<'tcx> Cx<'tcx> {
         let fty = func.ty(locals).ok();
         let mut done = false;
         if let Some(fty) = fty {
-            if let TyKind::RigidTy(RigidTy::FnDef(def, gargs)) = fty.kind() {
+            if let Some(TyKind::RigidTy(RigidTy::FnDef(def, gargs))) = kind_of(&fty) {
                 done = true;
                 v.push(("callee", s(def.name())));
                 v.push(("callee_crate", s(def.krate().name)));
@@ -523,7 +559,7 @@ impl<'tcx> Cx<'tcx> {
                         GenericArgKind::Type(t) => {
                             self.note_ty(t, 0);
                             // closures passed as generic args: name them
-                            if let TyKind::RigidTy(RigidTy::Closure(cd, _)) = t.kind() {
+                            if let Some(TyKind::RigidTy(RigidTy::Closure(cd, _))) = kind_of(t) {
                                 s(format!("closure:{}", cd.name()))
                             } else {
                                 s(ty_str(t))
@@ -534,7 +570,16 @@ impl<'tcx> Cx<'tcx> {
                     })
                     .collect();
                 v.push(("gargs", J::Arr(ga)));
-                match Instance::resolve(def, &gargs) {
+                let risky = gargs.0.iter().any(|a| match a {
+                    GenericArgKind::Type(t) => has_alias(t, 0),
+                    _ => false,
+                });
+                let resolved = if risky {
+                    Err(())
+                } else {
+                    Instance::resolve(def, &gargs).map_err(|_| ())
+                };
+                match resolved {
                     Ok(inst) => {
                         v.push(("resolved", s(inst.name())));
                         let k = match inst.kind {
@@ -914,6 +959,12 @@ fn main() {
         eprintln!("mirfacts: exec {} failed: {}", rustc, err);
         std::process::exit(127);
     }
+    let prev = std::panic::take_hook();
+    std::panic::set_hook(Box::new(move |info| {
+        if !QUIET.with(|q| q.get()) {
+            prev(info);
+        }
+    }));
     let result = rustc_public::run_with_tcx!(&args, analyze);
     match result {
         Ok(_) | Err(rustc_public::CompilerError::Skipped) | Err(rustc_public::CompilerError::Interrupted(_)) => {}
